@@ -114,26 +114,26 @@ Proof.
   { induction ys as [|y ys IHy]; [discriminate|].
     pose proof (dsl_vlt_scalar F st gt DvEmpty y HF1 eq_refl) as A1.
     pose proof (dsl_vlt_scalar F st (negb gt) DvEmpty y HF1 eq_refl) as A2.
-    destruct (dsl_vlt F st gt DvEmpty y) as [[|]| |[| | | |]]; try discriminate; try congruence.
-    destruct (dsl_vlt F st (negb gt) DvEmpty y) as [[|]| |[| | | |]]; try discriminate; try congruence; try exact IHy. }
+    destruct (dsl_vlt F st gt DvEmpty y) as [[|]| |[| |]]; try discriminate; try congruence.
+    destruct (dsl_vlt F st (negb gt) DvEmpty y) as [[|]| |[| |]]; try discriminate; try congruence; try exact IHy. }
   induction l1 as [|x xs IHx]; intros He ys.
   - destruct ys as [|y ys]; [discriminate|].
     pose proof (dsl_vlt_scalar F st gt DvEmpty y HF1 eq_refl) as A1.
     pose proof (dsl_vlt_scalar F st (negb gt) DvEmpty y HF1 eq_refl) as A2.
-    destruct (dsl_vlt F st gt DvEmpty y) as [[|]| |[| | | |]]; try discriminate; try congruence.
-    destruct (dsl_vlt F st (negb gt) DvEmpty y) as [[|]| |[| | | |]]; try discriminate; try congruence; try apply Hgor.
+    destruct (dsl_vlt F st gt DvEmpty y) as [[|]| |[| |]]; try discriminate; try congruence.
+    destruct (dsl_vlt F st (negb gt) DvEmpty y) as [[|]| |[| |]]; try discriminate; try congruence; try apply Hgor.
   - assert (Hx : dsl_cyc f st (l :: path) x = false) by (apply He; left; reflexivity).
     assert (Hxs : forall z, In z xs -> dsl_cyc f st (l :: path) z = false) by (intros z Hz; apply He; right; exact Hz).
     destruct ys as [|y ys].
     + pose proof (IH st (l :: path) x Hx F gt DvEmpty HF') as A1.
       pose proof (IH st (l :: path) x Hx F (negb gt) DvEmpty HF') as A2.
-      destruct (dsl_vlt F st gt x DvEmpty) as [[|]| |[| | | |]]; try discriminate; try congruence.
-      destruct (dsl_vlt F st (negb gt) x DvEmpty) as [[|]| |[| | | |]]; try discriminate; try congruence;
+      destruct (dsl_vlt F st gt x DvEmpty) as [[|]| |[| |]]; try discriminate; try congruence.
+      destruct (dsl_vlt F st (negb gt) x DvEmpty) as [[|]| |[| |]]; try discriminate; try congruence;
       try apply (IHx Hxs []).
     + pose proof (IH st (l :: path) x Hx F gt y HF') as A1.
       pose proof (IH st (l :: path) x Hx F (negb gt) y HF') as A2.
-      destruct (dsl_vlt F st gt x y) as [[|]| |[| | | |]]; try discriminate; try congruence.
-      destruct (dsl_vlt F st (negb gt) x y) as [[|]| |[| | | |]]; try discriminate; try congruence;
+      destruct (dsl_vlt F st gt x y) as [[|]| |[| |]]; try discriminate; try congruence.
+      destruct (dsl_vlt F st (negb gt) x y) as [[|]| |[| |]]; try discriminate; try congruence;
       try apply (IHx Hxs ys).
 Qed.
 
@@ -221,7 +221,7 @@ Qed.
 Lemma dsl_of_cres_cyc : forall st gt a b,
   dsl_of_cres (dsl_vlt (dsl_eqfuel st) st gt a b) = PrAbort DaCycle -> dsl_cyc_in st.
 Proof.
-  intros st gt a b H. exists a. destruct (dsl_vlt (dsl_eqfuel st) st gt a b) as [x| |[| | | |]] eqn:E; try discriminate.
+  intros st gt a b H. exists a. destruct (dsl_vlt (dsl_eqfuel st) st gt a b) as [x| |[| |]] eqn:E; try discriminate.
   eapply dsl_vlt_abort_cyclic. exact E.
 Qed.
 
@@ -264,13 +264,13 @@ Proof.
     generalize (@nil (js_value dsl_jflt)). revert He. generalize (dsl_arr st l).
     induction l0 as [|x xs IHx]; intros He acc; [discriminate|].
     pose proof (IH st (l :: path) x (He x (or_introl eq_refl)) F HF') as Hx.
-    destruct (dsl_to_js F st x) as [j|[| | | |]]; try discriminate; try congruence.
+    destruct (dsl_to_js F st x) as [j|[| |]]; try discriminate; try congruence.
     apply IHx. intros z Hz. apply He. right. exact Hz.
   - pose proof (dsl_cyc_dict_elems f st path l H) as He.
     generalize (@nil (list Z * js_value dsl_jflt)). revert He. generalize (dsl_kv st l).
     induction l0 as [|[k x] xs IHx]; intros He acc; [discriminate|].
     pose proof (IH st (l :: path) x (He (k, x) (or_introl eq_refl)) F HF') as Hx.
-    destruct (dsl_to_js F st x) as [j|[| | | |]]; try discriminate; try congruence.
+    destruct (dsl_to_js F st x) as [j|[| |]]; try discriminate; try congruence.
     apply IHx. intros z Hz. apply He. right. exact Hz.
 Qed.
 
